@@ -29,9 +29,7 @@ Get(f, k) == IF k \in DOMAIN f THEN f[k] ELSE "none"
 InitEv(e) == e.ev = "init" /\ tab' = [classes |-> e.classes, lines |-> e.lines, maps |-> e.maps]
              /\ cache' = <<>> /\ loaded' = <<>>
 
-RewriteEv(e) ==
-  /\ e.ev = "rewrite"
-  /\ LET cls == tab.classes[e.version] IN
+RewriteJudge(e, cls) ==
      /\ IF e.threw THEN Verdict(e.rid, "C11", "reject", "the package threw")
         ELSE IF cls = "error" THEN
              IF e.status = "error" THEN Verdict(e.rid, "C12", "ok0", "error propagated") ELSE Verdict(e.rid, "C12", "reject", "native error swallowed")
@@ -44,11 +42,24 @@ RewriteEv(e) ==
      /\ IF e.threw \/ cls = "error" THEN TRUE
         ELSE IF e.fresh_same THEN Verdict(e.rid, "C16", "ok", cls)
         ELSE Verdict(e.rid, "C16", "reject", <<"the package's result differs from a fresh call in", e.fresh_diff, "after earlier calls on this rewriter">>)
+
+RewriteEv(e) ==
+  /\ e.ev = "rewrite"
+  /\ LET cls == tab.classes[e.version] IN
+     /\ RewriteJudge(e, cls)
      /\ cache' = CASE cls = "modified" -> (e.file :> e.version) @@ cache
                    [] cls = "notmodified" -> (e.file :> "none") @@ cache
                    [] OTHER -> cache
      /\ loaded' = IF cls = "error" THEN loaded ELSE (e.file :> e.version) @@ loaded
   /\ UNCHANGED tab
+
+(* a rewrite during which the package's own bookkeeping fails (the map store refuses the write): the call still *)
+(* returns, and what it returns is still the native result -- status and content agree (C12), nothing is thrown *)
+(* (C11).  Which map the store holds afterwards is not specified: such histories never look the file up again.  *)
+FaultEv(e) ==
+  /\ e.ev = "rewrite_fault"
+  /\ RewriteJudge(e, tab.classes[e.version])
+  /\ UNCHANGED <<cache, loaded, tab>>
 
 FrameOk(fr, exp) == "path" \in DOMAIN fr /\ "line" \in DOMAIN fr /\ fr.path = exp.path /\ fr.line = exp.line
 
@@ -113,7 +124,7 @@ BulkEv(e) == e.ev = "bulk" /\ (IF e.threw THEN Verdict(e.rid, "C11", "reject", "
              /\ UNCHANGED <<cache, loaded, tab>>
 
 Next == /\ l <= Len(Recs)
-        /\ LET e == Recs[l] IN InitEv(e) \/ RewriteEv(e) \/ ThrowEv(e) \/ ProbeEv(e) \/ OriginalEv(e) \/ NewEv(e) \/ BulkEv(e)
+        /\ LET e == Recs[l] IN InitEv(e) \/ RewriteEv(e) \/ FaultEv(e) \/ ThrowEv(e) \/ ProbeEv(e) \/ OriginalEv(e) \/ NewEv(e) \/ BulkEv(e)
         /\ l' = l + 1
 Spec == Init /\ [][Next]_vars
 AllConsumed == TLCGet("stats").diameter - 1 = Len(Recs)
